@@ -235,20 +235,33 @@ func (g c10Greeter) Plain() string  { return "plain " + g.Name }
 // computed (first name a, then b, then a missing one), a method looked up first on a value
 // (where a pointer-receiver method is unreachable and the execution fails) and then through
 // a pointer, a field looked up first on a type where it is unexported: the second execution
+// a partial whose block lookups go through different includers, a positional yield argument
+// whose block is overridden under another parameter name: the second execution
 // yields exactly what it yields without the first (same bytes, same error-or-not).
 //
 //gosym:reach compared
 func H_C10_history2() {
-	sc := ndChoice("scenario", 4)
+	sc := ndChoice("scenario", 6)
 	first := ndChoice("first", 3)
 	second := ndChoice("second", 3)
-	set := hxSet(nil,
+	shared := []string{
+		// a partial that yields a block only its includers define (differently, or not at all)
+		"/partial.jet", `{{ block own() }}o{{ end }}[{{ yield greet() }}]`,
+		"/pa.jet", `{{ block greet() }}hello{{ end }}|{{ include "/partial.jet" }}`,
+		"/pc.jet", `{{ block greet() }}bye{{ end }}|{{ include "/partial.jet" }}`,
+		"/pn.jet", `{{ include "/partial.jet" }}`,
+		// a yield with a positional argument whose block is overridden with another parameter name
+		"/base.jet", `{{ block cell(text="-") }}({{ text }}){{ end }}|{{ yield cell("x") }}|{{ yield cell(text="y") }}`,
+		"/child.jet", `{{ extends "/base.jet" }}{{ block cell(label="?") }}<{{ label }}>{{ end }}`,
+		"/child2.jet", `{{ extends "/base.jet" }}{{ block cell(text="T") }}{{ "{" }}{{ text }}{{ "}" }}{{ end }}`,
+	}
+	set := hxSet(nil, append([]string{
 		"/inc.jet", `<{{ include n }}>`,
 		"/a.jet", `A`, "/b.jet", `B`,
 		"/meth.jet", `[{{ .Greet() }}]`,
 		"/plain.jet", `[{{ .Plain() }}]`,
 		"/fld.jet", `[{{ .Name }}]`,
-	)
+	}, shared...)...)
 	names := []string{"/a.jet", "/b.jet", "/missing.jet"}
 	val, ptr := c10Greeter{"v"}, &c10Greeter{"p"}
 	type hidden struct{ name string }
@@ -265,15 +278,19 @@ func H_C10_history2() {
 			tn, data = "/meth.jet", datas[k]
 		case 2:
 			tn, data = "/plain.jet", datas[k]
-		default:
+		case 3:
 			tn, data = "/fld.jet", datas[k]
+		case 4:
+			tn = []string{"/pa.jet", "/pc.jet", "/pn.jet"}[k]
+		default:
+			tn = []string{"/base.jet", "/child.jet", "/child2.jet"}[k]
 		}
 		o, err := hxExec(s, tn, vars, data)
 		return o, err != nil
 	}
-	fresh := hxSet(nil,
+	fresh := hxSet(nil, append([]string{
 		"/inc.jet", `<{{ include n }}>`, "/a.jet", `A`, "/b.jet", `B`,
-		"/meth.jet", `[{{ .Greet() }}]`, "/plain.jet", `[{{ .Plain() }}]`, "/fld.jet", `[{{ .Name }}]`)
+		"/meth.jet", `[{{ .Greet() }}]`, "/plain.jet", `[{{ .Plain() }}]`, "/fld.jet", `[{{ .Name }}]`}, shared...)...)
 	wantOut, wantErr := run(fresh, second)
 	run(set, first)
 	gotOut, gotErr := run(set, second)
